@@ -195,6 +195,10 @@ func pinnedC13() []*pgen.Case {
 		mk("pin_update_map_nosource", "func Make() string { return \"x\" }\ntype In struct{ V int }\ntype Out struct{ V int; F string }\n\n// goverter:converter\ntype Converter interface {\n\t// goverter:update target\n\t// goverter:map F | Make\n\tUpdate(source In, target *Out)\n}\n"),
 		mk("pin_selfref_slice", "// goverter:converter\ntype Converter interface {\n\tM(source T) U\n\tN(source MS) MT\n\tP(source L) K\n}\ntype T []T\ntype U []U\ntype MS map[string][]MS\ntype MT map[string][]MT\ntype L []*L\ntype K []*K\n"),
 		mk("pin_selfref_mapkey", "// goverter:converter\ntype Converter interface {\n\tM(source Graph) Graph2\n\tN(source map[string]Graph) map[string]Graph\n}\ntype Graph map[*Graph]bool\ntype Graph2 map[*Graph2]bool\n"),
+		mk("pin_automap_ptr_string", "// goverter:converter\ntype Converter interface {\n\t// goverter:autoMap P\n\tM(source In) Out\n}\ntype In struct{ P *string; Name string }\ntype Out struct{ Name string; Street string }\n"),
+		mk("pin_automap_ptr_slice", "// goverter:converter\ntype Converter interface {\n\t// goverter:autoMap L\n\tM(source In) Out\n}\ntype In struct{ L *[]int; Name string }\ntype Out struct{ Name string; Street string }\n"),
+		mk("pin_automap_ptr_nested", "// goverter:converter\ntype Converter interface {\n\t// goverter:autoMap Deep.Q\n\tM(source In) Out\n}\ntype In struct{ Deep struct{ Q *int }; Name string }\ntype Out struct{ Name string; Street string }\n"),
+		mk("pin_variadic_ctx_submethod", "type Ctx struct{ Prefix string }\ntype A struct{ Name string }\ntype B struct{ Name string }\ntype Inner struct{ Items []A }\ntype InnerOut struct{ Items []B }\ntype In struct{ Inner Inner }\ntype Out struct{ Inner InnerOut }\n\n// goverter:converter\n// goverter:extend ConvItems\ntype Converter interface {\n\t// goverter:context ctx\n\tConvert(ctx Ctx, in In) Out\n}\n\n// goverter:context ctx\nfunc ConvItems(ctx Ctx, items ...A) []B {\n\tout := make([]B, 0, len(items))\n\tfor _, i := range items {\n\t\tout = append(out, B{Name: ctx.Prefix + i.Name})\n\t}\n\treturn out\n}\n"),
 		mk("pin_selfref_ptr", "// goverter:converter\ntype Converter interface {\n\tM(source P) Q\n}\ntype P *P\ntype Q *Q\n"),
 		mk("pin_selfref_array", "// goverter:converter\ntype Converter interface {\n\tM(source A) A\n}\ntype A [2]*A\n"),
 		mk("pin_selfref_field", "// goverter:converter\ntype Converter interface {\n\tM(source In) Out\n}\ntype T []T\ntype In struct{ V T }\ntype Out struct{ V T }\n"),
